@@ -27,7 +27,7 @@ func (c *memCache) Put(id string, s *type3.ClientState)      { c.m[id] = s }
 
 func TestIndexStability(t *testing.T) {
 	s := rt.S("index").SetRule("two clients (secrets incl. small scalars), two origins with distinct index keys and a third sharing the first's key; for each (client, origin) a sequence of 2..4 complete runs CreateTokenRequest -> VerifyRequest -> issuer.Evaluate -> FinalizeIndex with independently drawn blinds, nonces, challenges; oracle: every returned ID equals HKDF-SHA-384(salt=client key, ikm=client key blinded by the origin's index key [harness hash-to-field on crypto/elliptic], info=IssuerOriginAlias) written over crypto/hmac; identical across the sequence; distinct between clients and between distinct index keys; equal for origins sharing an index key; Evaluate's second result equals the request key blinded by the index key. non-trivial = every sequence; distinct by (client key, index key, blinds)")
-	rt.Check(t, 40, 6000, func(t *rapid.T) {
+	rt.Check(t, 64, 6400, func(t *rapid.T) {
 		defer rt.Entropy(gen.Seed().Draw(t, "entropy"))()
 		rsaIdx := gen.RSAKey().Draw(t, "rsakey")
 		iss := type3.NewRateLimitedIssuer(gen.RSAPool()[rsaIdx])
